@@ -170,6 +170,14 @@ static void pump_check_after(struct rthr *th, int id, int ret)
 				viol("C17.eof", "pump obj %d: reported done, but only %" PRId64 "+%d of the %" PRId64 " produced bytes have reached the output", id,
 				     RO[b].xi[SX_RPOS], inq, RO[a].xi[SX_WPOS]);
 		}
+		if ((px->p.flags & IV_FD_PUMP_FLAG_RELAY_EOF) && RO[b].ctype == 1 &&
+		    RO[b].copen[1 - (int)PL->obj[id].p[3]] && !RO[b].xi[SX_CCLOSED]) {
+			/* a socket output with RELAY_EOF: the far end must see the write side shut down by now */
+			struct pollfd hp = { bfd, POLLIN | POLLRDHUP, 0 };
+			syscall(SYS_poll, &hp, 1L, 0L);
+			if (!(hp.revents & (POLLRDHUP | POLLHUP)))
+				viol("C17.eof", "pump obj %d: reported done with RELAY_EOF set, but the output socket was not shut down (the consumer will never see end-of-file)", id);
+		}
 		if (px->pollin || px->pollout)
 			viol("C17.bands", "pump obj %d: still requests bands (in=%d,out=%d) after completing", id, px->pollin, px->pollout);
 		px->done = 1;
